@@ -7,6 +7,7 @@
 package kernel
 
 import (
+	"encoding/json"
 	"fmt"
 	"hash/fnv"
 	"runtime"
@@ -448,11 +449,37 @@ func (k *Kernel) Run(until time.Duration) string {
 		w.ev.NParked = len(cands)
 		k.seq++
 		k.Stats.Events++
-		k.pending = w.ev
 		k.current = w.ev
+		if immediate(w.ev) {
+			// nothing more will be recorded on this event: deliver it now, so that
+			// a process that exits inside the released segment has journalled it
+			k.deliver(w.ev)
+		} else {
+			k.pending = w.ev
+		}
 		raceDisable()
 		close(w.ch)
 		raceEnable()
+	}
+}
+
+func immediate(ev *Event) bool {
+	switch ev.Kind {
+	case "lock", "task":
+		return true
+	case "yield":
+		return ev.Site != "exec.start"
+	}
+	return false
+}
+
+// Complete is called by the seam handler when the operation of the event that
+// is running now has finished (its result is recorded): the event is
+// delivered to the consumers at once instead of at the next quiescent point.
+func (k *Kernel) Complete(ev *Event) {
+	if ev != nil && k.pending == ev {
+		k.pending = nil
+		k.deliver(ev)
 	}
 }
 
@@ -523,4 +550,39 @@ func (k *Kernel) StepWith(name string, sample any) {
 	ev := NewTaskEvent("task", name)
 	ev.Sample = sample
 	k.Park(ev, nil)
+}
+
+func (f *Flags) UnmarshalJSON(b []byte) error {
+	s := strings.Trim(string(b), `"`)
+	*f = 0
+	if s == "" {
+		return nil
+	}
+	for _, part := range strings.Split(s, "+") {
+		for _, n := range flagNames {
+			if n.name == part {
+				*f |= n.f
+			}
+		}
+	}
+	return nil
+}
+
+// DecodeEvent parses a journalled event; its Sample stays raw JSON
+// (json.RawMessage) for the reader to decode into the type it expects.
+func DecodeEvent(b []byte) (*Event, error) {
+	type alias Event
+	aux := struct {
+		*alias
+		Sample json.RawMessage `json:"sample"`
+	}{alias: (*alias)(&Event{})}
+	if err := json.Unmarshal(b, &aux); err != nil {
+		return nil, err
+	}
+	ev := (*Event)(aux.alias)
+	if len(aux.Sample) > 0 {
+		ev.Sample = aux.Sample
+	}
+	ev.Done = true
+	return ev, nil
 }
